@@ -269,6 +269,7 @@ pub fn run(or: &Oracles, prop: &str, max_windows: u64) -> WorldOutcome {
     let own = kernel::choose(G, n as u64) as usize;
     let hist = generate(&stakes, max_windows);
     let mut items = order(hist.items);
+    kernel::fault("reordered_delivery");
     // waiters and standstill triggers at sampled positions
     let extra = kernel::choose(O, 4);
     // the tracker supports a single waiter per slot (the block producer registers one per own window)
